@@ -874,10 +874,12 @@ class OvldMC(type):
                 v for v in ovlds[1:] if getattr(v, "_extend_super", False)
             ]
             if mixins:
-                o = ovlds[0].copy(mixins=mixins)
                 others = [v for v in values if v is not None and not is_ovld(v)]
-                for other in others:
-                    o.register(other)
+                # Plain functions of the bases join as mixins too: registered
+                # as own methods they would beat the definitions of the class
+                # body, which are added on top of this merge
+                mixins += [m for v in others if (m := to_ovld(v)) is not None]
+                o = ovlds[0].copy(mixins=mixins)
                 o.rename(name)
                 d[name] = o
 
